@@ -201,7 +201,7 @@ fn breaker_plans(thorough: bool) -> Vec<Plan> {
             let cands = std_menu(s, &o2);
             breaker_probe(s, &cands)
         }));
-        let mut required = vec!["c10:halt_changes_only_flag", "c10:resume_sets_exactly_totals"];
+        let mut required = vec!["c10:halt_changes_only_flag", "c10:resume_sets_exactly_totals", "c10:other_messages_keep_flag"];
         for kind in ["LiquidStake", "LiquidUnstake", "SubmitBatch", "Withdraw", "ReceiveRewards", "ReceiveUnstakedTokens"] {
             required.push(Box::leak(format!("c10:refused_while_halted:{kind}").into_boxed_str()));
         }
